@@ -1,5 +1,10 @@
 """C10 — KDMixCollator / MAEFinetuneMixCollator: case generator, real-code runner (recorded RNG tape),
-independent property oracle, correspondence with the Lean model (Model/MixCollator.lean)."""
+independent property oracle, correspondence with the Lean model (Model/MixCollator.lean).
+
+Feeds / histories exercised besides the configuration space (see `vary`): image dtype float32/float64/float16/bfloat16 as tensors or numpy
+arrays, label dtype float32/float64/float16/int64 as tensors, numpy arrays / scalars or python scalars, collator = deep copy or pickle round
+trip of the configured object, a differently configured sibling collator in use next to the judged one, warm-up batches on the same object.
+All outputs are judged in float64 against exactly representable sample ids; only the tolerance depends on the dtype."""
 import json
 import random
 import time
@@ -12,6 +17,30 @@ REL_TOL = 1e-5
 SHUFFLES = ["roll", "flip", "random"]
 SPLITS = [(1.0, None), (None, 1.0), (0.5, 0.5), (0.2, 0.8), (0.8, 0.2), (1.0, 0.0), (0.0, 1.0)]
 MODES = ["x class", "class x", "index x class", "x index class", "x class index"]
+# image / label data types and containers the collator accepts (default_collate stacks tensors and numpy arrays alike).
+# tolerance = relative error of w*x_i+(1-w)*x_p evaluated in that type (3 roundings + rounding of w), with a 5x margin
+PIX_TOL = {"float32": REL_TOL, "float64": REL_TOL, "float16": 4e-3, "bfloat16": 3e-2}
+LAB_TOL = {"float32": 2e-5, "float64": 2e-5, "float16": 2e-3, "bfloat16": 1.6e-2}
+EXACT_IDS = {"float16": 2047, "bfloat16": 255}     # integers 1..n are exactly representable
+
+
+def x_dtype_of(case):
+    return case.get("x_dtype") or "float32"
+
+
+def dtype_name(t):
+    return str(getattr(t, "dtype", "")).replace("torch.", "")
+
+
+def pix_tol(case, real=None):
+    t = PIX_TOL.get(x_dtype_of(case), REL_TOL)
+    if real is not None:
+        t = max(t, PIX_TOL.get(real.get("Xo_dtype"), REL_TOL))
+    return t
+
+
+def lab_tol(real):
+    return LAB_TOL.get(real.get("Yo_dtype"), 2e-5)
 
 
 def rat(v):
@@ -89,8 +118,13 @@ def pixel(i, c, r, k):
 def make_inputs(case):
     import torch
     B, c, h, w = case["B"], case["c"], case["h"], case["w"]
-    X = torch.tensor([[[[pixel(i, ci, r, k) for k in range(w)] for r in range(h)] for ci in range(c)] for i in range(B)],
-                     dtype=torch.float32).reshape(B, c, h, w)
+    if case.get("enc") == "compact":
+        # half precision images: ids 1..B*c*h*w (exactly representable in float16 up to 2047, in bfloat16 up to 255)
+        X = (torch.arange(B * c * h * w, dtype=torch.float64) + 1.0).reshape(B, c, h, w)
+    else:
+        # the true values are kept in float64 (exact for every id); build_samples casts to the image dtype of the case
+        X = torch.tensor([[[[pixel(i, ci, r, k) for k in range(w)] for r in range(h)] for ci in range(c)] for i in range(B)],
+                         dtype=torch.float64).reshape(B, c, h, w)
     lk, C = case["label_kind"], case["C"]
     rng = random.Random(case["seed"] * 7919 + 13)
     if lk == "onehot":
@@ -121,14 +155,26 @@ def build_samples(case, X, Y):
     import torch
     items_of = []
     mode = case["mode"].split(" ")
+    xdt = getattr(torch, x_dtype_of(case))
+    ydt = getattr(torch, case.get("y_dtype") or "float32")
     for i in range(case["B"]):
         its = []
         for m in mode:
             if m == "x":
-                its.append(X[i].clone())
+                xi = X[i].clone().to(xdt)
+                its.append(xi.numpy() if case.get("x_box") == "numpy" else xi)
             elif m == "class":
                 y = Y[i]
-                its.append(torch.tensor(y, dtype=torch.float32) if isinstance(y, list) else y)
+                ybox = case.get("y_box")
+                if isinstance(y, list):
+                    yt = torch.tensor(y, dtype=torch.float64).to(ydt)
+                    its.append(yt.numpy() if ybox == "numpy" else yt)
+                elif ybox == "tensor":
+                    its.append(torch.tensor(y, dtype=torch.float64).to(ydt))       # 0-d tensor
+                elif ybox == "numpy":
+                    its.append(torch.tensor(y, dtype=torch.float64).to(ydt).numpy()[()])   # numpy scalar
+                else:
+                    its.append(y)                                                  # python scalar
             elif m == "index":
                 its.append(100 + i)
         items_of.append(tuple(its) if len(its) > 1 else its[0])
@@ -149,12 +195,30 @@ def float_sum(ct):
     return (ct["mixup_p"] or 0.) + (ct["cutmix_p"] or 0.)
 
 
+def clone_of(col, how):
+    """the collator as a user would ship it to a worker / checkpoint it: a deep copy or a pickle round trip of the configured object"""
+    if how == "deepcopy":
+        import copy
+        return copy.deepcopy(col)
+    if how == "pickle":
+        import pickle
+        return pickle.loads(pickle.dumps(col))
+    return col
+
+
+def make_kd(ct, mode):
+    from kappadata.collators.kd_mix_collator import KDMixCollator
+    kw = {k: ct[k] for k in ("mixup_p", "cutmix_p", "mixup_alpha", "cutmix_alpha") if ct.get(k) is not None}
+    return KDMixCollator(apply_mode=ct["apply_mode"], lamb_mode=ct["lamb_mode"], shuffle_mode=ct["shuffle_mode"],
+                         dataset_mode=mode, return_ctx=True, **kw)
+
+
 def build_collator(case, rec):
     """returns (callable on the sample list, dict that will hold the ctx, inner KDMixCollator)"""
     captured = {}
     if case["kind"] == "mae":
         from kappadata.common.collators.mae_finetune_mix_collator import MAEFinetuneMixCollator
-        col = MAEFinetuneMixCollator()
+        col = clone_of(MAEFinetuneMixCollator(), case.get("clone"))
         col.set_rng(rec)
         inner = col.collators[0]
         orig = inner.collate
@@ -167,11 +231,7 @@ def build_collator(case, rec):
         def call(samples):
             return col([s[0] for s in samples])     # return_ctx=False: samples carry no ctx
         return call, captured, inner
-    from kappadata.collators.kd_mix_collator import KDMixCollator
-    ct = case["ctor"]
-    kw = {k: ct[k] for k in ("mixup_p", "cutmix_p", "mixup_alpha", "cutmix_alpha") if ct.get(k) is not None}
-    col = KDMixCollator(apply_mode=ct["apply_mode"], lamb_mode=ct["lamb_mode"], shuffle_mode=ct["shuffle_mode"],
-                        dataset_mode=case["mode"], return_ctx=True, **kw)
+    col = clone_of(make_kd(case["ctor"], case["mode"]), case.get("clone"))
     col.set_rng(rec)
 
     def call(samples):
@@ -179,6 +239,24 @@ def build_collator(case, rec):
         captured["ctx"] = ctx
         return out
     return call, captured, col
+
+
+def run_sibling(case):
+    """a second collator object with ANOTHER configuration (own generator, own layout) is alive next to the judged one and collates a
+    batch of its own right before the judged call; objects are independent, so this must not show in the judged batch"""
+    import numpy as np
+    sib = case.get("sibling")
+    if not sib:
+        return
+    try:
+        col = make_kd(sib["ctor"], sib["mode"])
+        col.set_rng(np.random.default_rng(sib["seed"]))
+        sc = {"B": sib["B"], "c": case["c"], "h": case["h"], "w": case["w"], "C": case["C"], "label_kind": sib["label_kind"],
+              "mode": sib["mode"], "seed": sib["seed"], "x_dtype": sib.get("x_dtype")}
+        X, Y = make_inputs(sc)
+        col(build_samples(sc, X + 7.0, Y))
+    except Exception:  # noqa
+        pass
 
 
 MAE_CTOR = {"mixup_p": 0.5, "cutmix_p": 0.5, "mixup_alpha": 0.8, "cutmix_alpha": 1.0,
@@ -238,6 +316,7 @@ def run_real(case):
             call(build_samples(case, X + 4096.0 * (j + 1), Y[::-1] if isinstance(Y, list) else Y))
         except Exception:  # noqa
             break
+    run_sibling(case)
     del rec.tape[:]
     del out["halves"][:]
     out.pop("bbox", None)
@@ -257,11 +336,14 @@ def run_real(case):
     out["is_tuple"] = isinstance(res, tuple)
     for m, it in zip(mode, res):
         if m == "x":
-            out["Xo"] = it
+            # judged in float64 (exact for every id and every image dtype); the emitted dtype only selects the tolerance
+            out["Xo_dtype"] = dtype_name(it)
+            out["Xo"] = torch.as_tensor(it).detach().to(torch.float64)
         elif m == "class":
-            out["Yo"] = it
+            out["Yo_dtype"] = dtype_name(it)
+            out["Yo"] = torch.as_tensor(it).detach().to(torch.float64)
         elif m == "index":
-            out["index"] = [int(v) for v in it.tolist()]
+            out["index"] = [int(v) for v in torch.as_tensor(it).tolist()]
     uc = ctx.get("use_cutmix")
     out["use_cutmix"] = [bool(v) for v in uc.tolist()] if torch.is_tensor(uc) else [bool(uc)]
     out["apply"] = [bool(v) for v in ctx["apply"].tolist()]
@@ -333,26 +415,33 @@ def compare(case, real, model):
             if it["t"] != "x":
                 return "layout x"
             xo = real["Xo"].tolist()
-            # float32 error of w*x_i+(1-w)*x_j (incl. rounding w to float32) is relative to the operands, not to the result
+            # rounding error of w*x_i+(1-w)*x_j in the image dtype (incl. rounding w) is relative to the operands, not to the result
             xmax = float(real["X"].abs().max())
+            ptol = pix_tol(case, real)
+            if list(real["Xo"].shape) != [case["B"], case["c"], case["h"], case["w"]]:
+                return "x shape"
             for i, img in enumerate(it["imgs"]):
                 for ci, ch in enumerate(img):
                     for r, row in enumerate(ch):
                         for k, p in enumerate(row):
-                            if not close(unrat(p), xo[i][ci][r][k], xmax):
+                            if not abs(unrat(p) - xo[i][ci][r][k]) <= ptol * max(abs(unrat(p)), abs(xo[i][ci][r][k]), xmax):
                                 return f"pixel sample={i} c={ci} r={r} col={k}: impl={xo[i][ci][r][k]} model={unrat(p)}"
             if list(real["Xo"].shape) != [case["B"], case["c"], case["h"], case["w"]]:
                 return "x shape"
         elif m == "class":
             yo = real["Yo"].tolist()
+            ltol = max(REL_TOL, lab_tol(real) / 2)
+
+            def lclose(a, b):
+                return abs(a - b) <= ltol * max(abs(a), abs(b), 1.0)
             if it["t"] == "cls2":
                 if real["Yo"].ndim != 2 or len(yo) != len(it["rows"]):
                     return "label layout"
                 for i, row in enumerate(it["rows"]):
-                    if len(row) != len(yo[i]) or not all(close(unrat(p), v) for p, v in zip(row, yo[i])):
+                    if len(row) != len(yo[i]) or not all(lclose(unrat(p), v) for p, v in zip(row, yo[i])):
                         return f"label row {i}: impl={yo[i]} model={[unrat(p) for p in row]}"
             elif it["t"] == "cls1":
-                if real["Yo"].ndim != 1 or len(yo) != len(it["ys"]) or not all(close(unrat(p), v) for p, v in zip(it["ys"], yo)):
+                if real["Yo"].ndim != 1 or len(yo) != len(it["ys"]) or not all(lclose(unrat(p), v) for p, v in zip(it["ys"], yo)):
                     return f"binary labels: impl={yo} model={[unrat(p) for p in it['ys']]}"
             else:
                 return "layout class"
@@ -370,13 +459,14 @@ def in_domain(case):
     return "x" in mode and "class" in mode and case["B"] >= 1 and case["label_kind"] in ("onehot", "soft", "binary01", "binaryint", "binaryfloat")
 
 
-def decode_image(Xi, Xj, Xo, same):
-    """how can the emitted image be read w.r.t. partner j: returns list of ('mix', w) / ('cut', retained_fraction, box)"""
+def decode_image(Xi, Xj, Xo, same, tol=REL_TOL):
+    """how can the emitted image be read w.r.t. partner j: returns list of ('mix', w, w_tolerance) / ('cut', retained_fraction, box).
+    All tensors are float64 (ids exact); tol = relative rounding error of the image dtype"""
     import torch
     forms = []
     if same:
-        # partner = the sample itself: any weight / box gives the sample back (up to float32 rounding of w*x+(1-w)*x)
-        if bool(torch.all(torch.abs(Xo - Xi) <= REL_TOL * Xi.abs() + 1e-6)):
+        # partner = the sample itself: any weight / box gives the sample back (up to rounding of w*x+(1-w)*x)
+        if bool(torch.all(torch.abs(Xo - Xi) <= tol * Xi.abs() + 1e-6)):
             forms.append(("self", None))
         return forms
     # cutmix reading: every pixel is the own or the partner's; partner pixels form one box, identical over channels
@@ -398,10 +488,14 @@ def decode_image(Xi, Xj, Xo, same):
                     forms.append(("cut", 1.0 - n / (h * w), [top, left, bot, right]))
     # mixup reading: one weight for all pixels
     d = (Xi - Xj)
-    wts = ((Xo - Xj) / d).flatten()
-    wm = float(wts.double().mean())
-    if bool(torch.all(torch.abs(Xo - (wm * Xi + (1 - wm) * Xj)) <= REL_TOL * torch.maximum(Xi.abs(), Xj.abs()) + 1e-6)):
-        forms.append(("mix", wm))
+    if bool((d != 0).all()):
+        scale = torch.maximum(Xi.abs(), Xj.abs())
+        wts = ((Xo - Xj) / d).flatten()
+        wm = float(wts.double().mean())
+        # every pixel estimates the weight up to tol*scale/|d|, so does their mean; the residual is at most twice the pixel error
+        if bool(torch.all(torch.abs(Xo - (wm * Xi + (1 - wm) * Xj)) <= (tol if tol <= REL_TOL else 2 * tol) * scale + 1e-6)):
+            wtol = REL_TOL if tol <= REL_TOL else float((tol * scale / d.abs()).max())
+            forms.append(("mix", wm, wtol))
     return forms
 
 
@@ -413,6 +507,10 @@ def oracle(case, real):
     ct = effective_ctor(case)
     lm, sm = ct["lamb_mode"], ct["shuffle_mode"]
     tag = f"{case['kind']} lamb={lm} shuffle={sm} B={case['B']} {case['c']}x{case['h']}x{case['w']} labels={case['label_kind']} seed={case['seed']}"
+    if x_dtype_of(case) != "float32" or case.get("x_box") or case.get("y_dtype") or case.get("y_box"):
+        tag += f" image={x_dtype_of(case)}/{case.get('x_box') or 'tensor'} label={case.get('y_dtype') or 'float32'}/{case.get('y_box') or 'default'}"
+    if case.get("clone") or case.get("sibling"):
+        tag += f" history={case.get('clone') or ''}{'+sibling' if case.get('sibling') else ''}"
     B = case["B"]
     X, Xo, Yo = real["X"], real["Xo"], real["Yo"]
     mode = case["mode"].split(" ")
@@ -424,7 +522,11 @@ def oracle(case, real):
     if list(Xo.shape) != list(X.shape):
         return Failure("mixcollator:layout", f"image tensor shape changed for {tag}", case, list(X.shape), list(Xo.shape))
     binary = not isinstance(real["Y"][0], list)
-    Y = torch.tensor(real["Y"], dtype=torch.float32)
+    Y = torch.tensor(real["Y"], dtype=torch.float64)
+    ptol, ltol = pix_tol(case, real), lab_tol(real)
+    if Xo.dtype != torch.float64 or Yo.dtype != torch.float64:      # replay of an older record
+        Xo, Yo = Xo.double(), Yo.double()
+    X = X.double()
     if binary:
         if Yo.ndim != 1 or len(Yo) != B:
             return Failure("mixcollator:layout", f"binary labels do not come back as a 1-d tensor for {tag}", case, [B], list(Yo.shape))
@@ -451,17 +553,17 @@ def oracle(case, real):
             cands = list(range(B))
         ok_js, why = [], []
         for j in cands:
-            forms = decode_image(X[i], X[j], Xo[i], j == i)
+            forms = decode_image(X[i], X[j], Xo[i], j == i, ptol)
             img_ok = False
             for f in forms:
                 if f[0] == "self":
                     img_ok = True
-                elif f[0] == "mix" and close(f[1], w, 1.0):
+                elif f[0] == "mix" and abs(f[1] - w) <= max(f[2], REL_TOL * max(abs(f[1]), abs(w), 1.0)):
                     img_ok = True
                 elif f[0] == "cut" and close(f[1], w, 1.0):
                     img_ok = True
             exp_y = w * Y2[i] + (1 - w) * Y2[j]
-            lab_ok = bool(torch.all(torch.abs(Yo2[i] - exp_y) <= 2e-5))
+            lab_ok = bool(torch.all(torch.abs(Yo2[i] - exp_y) <= ltol))
             if img_ok and lab_ok:
                 ok_js.append(j)
             else:
@@ -481,12 +583,13 @@ def oracle(case, real):
         if len(set(uniq)) != len(uniq):
             return Failure("mixcollator:partner-not-permutation", f"random partners are not a permutation for {tag}", case, "injective", decoded)
     # label rows stay on the simplex
+    eps = 1e-6 if ltol <= 2e-5 else ltol
     if not binary:
         sums = Yo.sum(dim=1)
-        if bool((Yo < -1e-6).any()) or bool((torch.abs(sums - 1) > 2e-5).any()):
+        if bool((Yo < -eps).any()) or bool((torch.abs(sums - 1) > ltol * (1 if ltol <= 2e-5 else Yo.shape[1])).any()):
             return Failure("mixcollator:label-simplex", f"label rows are not non-negative / do not sum to one for {tag}", case, 1.0, sums.tolist())
     else:
-        if bool((Yo < -1e-6).any()) or bool((Yo > 1 + 1e-6).any()):
+        if bool((Yo < -eps).any()) or bool((Yo > 1 + eps).any()):
             return Failure("mixcollator:label-simplex", f"binary labels leave [0,1] for {tag}", case, "[0,1]", Yo.tolist())
     return None
 
@@ -512,7 +615,7 @@ def gen_case(rng, big=False):
         case["kind"] = "mae"
         case["mode"] = "x class"
         case["B"] = rng.choice([1, 2, 4, 6, 3])
-        return case
+        return vary(case)
     mp, cp = rng.choice(SPLITS)
     ct = {"mixup_p": mp, "cutmix_p": cp,
           "mixup_alpha": rng.choice([0.8, 1.0, 0.3, 2.0]) if mp else None,
@@ -545,6 +648,58 @@ def gen_case(rng, big=False):
             case["label_kind"] = "intclass"
         elif k == "nox":
             case["mode"] = rng.choice(["index class", "class index"])
+    return vary(case)
+
+
+IN_DOMAIN_LABELS = ("onehot", "soft", "binary01", "binaryint", "binaryfloat")
+
+
+def vary(case):
+    """feeds and histories the property quantifies over silently (`all inputs`): image / label data type and container, the collator object
+    being a copy of the configured one, another differently configured collator alive and in use. Drawn from a generator of its own
+    (derived from the case) so that the legacy stream of cases is unchanged; every choice is written into the case (replays are
+    self-contained); absent fields = float32 tensors, python scalars for binary labels, fresh object, no sibling."""
+    r = random.Random(case["seed"] * 2654435761 % (2 ** 31) + 17 * case["B"] + case["h"])
+    n = case["B"] * case["c"] * case["h"] * case["w"]
+    u = r.random()
+    xdt = "float32" if u < 0.5 else "float64" if u < 0.72 else "float16" if u < 0.9 else "bfloat16"
+    if xdt in EXACT_IDS and n > EXACT_IDS[xdt]:
+        xdt = "float16" if n <= EXACT_IDS["float16"] else "float64"
+    if xdt != "float32":
+        case["x_dtype"] = xdt
+    if xdt in EXACT_IDS:
+        case["enc"] = "compact"
+    if xdt != "bfloat16" and r.random() < 0.25:
+        case["x_box"] = "numpy"
+    lk = case["label_kind"]
+    if lk in IN_DOMAIN_LABELS:
+        binary = lk.startswith("binary")
+        integral = lk in ("onehot", "binary01", "binaryint")
+        v = r.random()
+        if binary and v < 0.55:
+            pass                                    # python scalars (default_collate makes float64 / int64 of them)
+        else:
+            if binary:
+                case["y_box"] = "tensor" if r.random() < 0.65 else "numpy"
+            elif r.random() < 0.25:
+                case["y_box"] = "numpy"
+            ydt = r.choice(["float32", "float32", "float64", "float64", "float16", "int64"])
+            if ydt == "int64" and not integral:
+                ydt = "float64"
+            if ydt != "float32":
+                case["y_dtype"] = ydt
+    h = r.random()
+    if h < 0.08:
+        case["clone"] = "deepcopy"
+    elif h < 0.16:
+        case["clone"] = "pickle"
+    if case["kind"] == "kd" and r.random() < 0.12:
+        mp, cp = r.choice(SPLITS[:5])
+        case["sibling"] = {"ctor": {"mixup_p": mp, "cutmix_p": cp, "mixup_alpha": 0.8 if mp else None, "cutmix_alpha": 1.0 if cp else None,
+                                    "apply_mode": r.choice(["batch", "sample"]), "lamb_mode": r.choice(["batch", "sample"]),
+                                    "shuffle_mode": r.choice(SHUFFLES)},
+                           "mode": r.choice(MODES), "B": r.choice([2, 4]), "label_kind": "onehot", "seed": r.randint(0, 10 ** 6),
+                           "x_dtype": r.choice([None, "float64"])}
     return case
 
 
@@ -563,7 +718,7 @@ def structured_cases():
                                         "label_kind": lk, "mode": MODES[seed % len(MODES)], "cls_off": seed % 2, "cls_stride": 1, "seed": seed, "warm": seed % 3,
                                         "ctor": {"mixup_p": mp, "cutmix_p": cp, "mixup_alpha": 0.8 if mp else None,
                                                  "cutmix_alpha": 1.0 if cp else None, "apply_mode": am, "lamb_mode": lm, "shuffle_mode": sm}})
-    return out
+    return [vary(c) for c in out]
 
 
 def signature(case, real):
@@ -575,7 +730,8 @@ def signature(case, real):
         box = any((b[2] - b[0]) * (b[3] - b[1]) > 0 for b in real["bbox"])
     B = case["B"]
     return (case["kind"], ct["lamb_mode"], ct["shuffle_mode"], ct["apply_mode"], str(ct.get("mixup_p")), str(ct.get("cutmix_p")),
-            1 if B == 1 else (2 if B % 2 == 0 else 3), case["label_kind"], case["mode"], real.get("ctor"), real.get("res"), flags, box)
+            1 if B == 1 else (2 if B % 2 == 0 else 3), case["label_kind"], case["mode"], real.get("ctor"), real.get("res"), flags, box,
+            x_dtype_of(case), bool(case.get("clone") or case.get("sibling")))
 
 
 def public(case):
@@ -593,7 +749,9 @@ class C10(PropertyCheck):
     assumptions = [
         "np.random.Generator contract: random() in [0,1), beta(a,a) in [0,1], integers(n) in [0,n), permutation(n) is a permutation of range(n) "
         "(hypothesis TapeOk of the theorems; the tape itself is recorded from the real run by a duck-typed proxy)",
-        "reals are modelled over Rat; float32 rounding of pixel/label arithmetic is covered by the 1e-5 relative tolerance of the correspondence",
+        "reals are modelled over Rat; rounding of pixel/label arithmetic is covered by the relative tolerance of the correspondence and of the oracle "
+        "(1e-5 for float32/float64 images, 4e-3 for float16, 3e-2 for bfloat16: three roundings + rounding of the weight, 5x margin; sample ids are "
+        "exactly representable in the image dtype, so cutmix pixels are compared exactly)",
         "float front end of get_random_bbox (floor(0.5*sqrt(1-lam)*extent)) is evaluated by torch on the recorded lambdas and handed to the integer core; "
         "the theorems hold for every front-end output",
         "torch tensor ops roll / flip / index / slice-assign / mul_ / add_ / where / clamp / default_collate behave as documented",
@@ -632,7 +790,9 @@ class C10(PropertyCheck):
         cases, ncorp, nst = self.cases()
         res.rule = (f"{ncorp} corpus + {nst} structured cases (lamb x shuffle x apply mode x 7 probability splits x B in 1..4 x one-hot/binary"
                     f"{'; sampled' if self.tier == 'quick' else '; complete'}) + seeded random cases (B 1..6, c in {{1,3}}, h,w in 1..6 and 16, 2..5 classes, "
-                    "soft/binary labels, 5 mode layouts, MAEFinetuneMixCollator, rejected constructor calls); distinct = (collator, lamb/shuffle/apply mode, "
+                    "soft/binary labels, 5 mode layouts, MAEFinetuneMixCollator, rejected constructor calls); about half of all cases feed images as "
+                    "float64/float16/bfloat16 and/or numpy arrays, labels as float64/float16/int64 tensors, numpy arrays or scalars; a share runs on a "
+                    "deep copy / pickle round trip of the collator or next to a differently configured sibling collator in use; distinct = (collator, lamb/shuffle/apply mode, "
                     "split, batch-size class, label kind, layout, outcome, flag pattern, non-empty box)")
         reals, reqs = [], []
         for case in cases:
@@ -649,6 +809,9 @@ class C10(PropertyCheck):
             res.bump(f"lamb={ct['lamb_mode']}")
             res.bump(f"shuffle={ct['shuffle_mode']}")
             res.bump(f"B={case['B']}")
+            res.bump(f"image={x_dtype_of(case)}/{case.get('x_box') or 'tensor'}")
+            res.bump(f"label={case.get('y_dtype') or 'float32'}/{case.get('y_box') or 'default'}")
+            res.bump(f"history={case.get('clone') or 'fresh'}{'+sibling' if case.get('sibling') else ''}")
             if real.get("use_cutmix") is not None:
                 uc = real["use_cutmix"]
                 res.bump("flags=" + ("all-cutmix" if all(uc) else "all-mixup" if not any(uc) else "mixed"))
